@@ -1130,7 +1130,9 @@ def optimum_threshold(mu0,mu1,S0,S1, modulation: Literal['ook', 'ppm'], M=None):
     s1=S1**0.5
     s0=S0**0.5
 
-    threshold = 1/(S1-S0)*(mu0*S1 - mu1*S0 + s1*s0*np.sqrt((mu1-mu0)**2 + 2*(S1-S0)*np.log(s1/s0*(M-1))))
+    d = mu1-mu0
+    L = np.log(s1/s0*(M-1))
+    threshold = mu0 + s0*(d**2 + 2*S1*L)/(d*s0 + s1*np.sqrt(d**2 + 2*(S1-S0)*L)) # the same root with the factor S1-S0 cancelled: defined for S0 == S1
     return threshold
 
 def theory_BER(
